@@ -65,6 +65,19 @@ def main():
                                       "input": {"w": np.asarray(w).tolist()[:50], "ess": ess, "bins": bins},
                                       "note": "found by the bounded native contract search"}))
                     return
+    # results are the caller's: a held result is unchanged by later, different trimmings in the same process (sizes in both orders)
+    held = []
+    r8 = np.random.RandomState(8)
+    for n in (900, 40, 300, 40, 2000, 120, 900, 17, 5, 300):
+        w = np.exp(r8.randn(n) * 3)
+        out_s, out_w = tools.trim_weights(np.arange(n), w.copy(), ess=0.9, bins=200)
+        held.append((n, np.array(out_s, copy=True), np.array(out_w, copy=True), out_s, out_w))
+    tried += 1
+    for i, (n, s0, w0, s1, w1) in enumerate(held):
+        if not (np.array_equal(s0, s1) and np.array_equal(w0, w1)):
+            print(json.dumps({"reproduced": True, "tried": tried, "detail": f"the result of trim_weights call {i + 1} (input size {n}) changed while later, unrelated trim_weights "
+                              f"calls ran: its weights now sum to {float(np.sum(w1))!r} (results share storage between calls)", "input": {"probe": "held results", "call": i + 1}}))
+            return
     # the trimming contract at the place users meet it: successive posterior() calls on ONE sampler with different trimming
     # parameters; every call must deliver the ESS fraction requested in *that* call
     try:
